@@ -64,7 +64,7 @@ register("C17", ["c17", "c17w", "hazards", "pins"],
          ["tokio joins/aborts tasks as documented; Arc/Weak drop semantics", "scope::run! is the only caller of Scope::run (macro hygiene)"],
          TRUSTED)
 
-register("C14", ["c14", "hazards"],
+register("C14", ["c14", "hazards", "pins"],
          "Static dominance, term and table checks of the multiplexer's flow-control and reuse mechanisms: in the inbound frame loop buffer allocation and frame hand-over are dominated by the count and byte permit acquisitions of exactly the allocated size (bounded by read_frame_size), frames carry their permits and Frame drops data before permits; semaphores come from the configured limits and Mux::run is dominated by verify(); stream counts per capability are the minimum of both sides' limits with consecutive ids and checked lookup; per iteration a new transient stream is handed out only after the previous one was closed, the limiter permit, the reservation and the OPEN exchange; on reuse the reader discards the cached partial frame and resets close_received, and stops at CLOSE; a census of narrowing casts. Isolation and ordering under all interleavings are not decided.",
          ["tokio semaphores/channels behave as documented", "ExclusiveLock hands the half back only when the previous Stream is dropped"],
          TRUSTED)
@@ -74,7 +74,7 @@ register("C01", ["c01", "c02", "c03", "phase_gate", "c04", "sigchain", "c07", "c
          ["the ChonkyBFT safety argument for the combination of the mechanisms (spec/)", "C07 lemma"],
          TRUSTED)
 
-register("C15", ["c15", "hazards"],
+register("C15", ["c15", "hazards", "pins"],
          "The numeric clause (at most b + T/r + 1 permits per window, arrival-order service under every interleaving) quantifies over runtime values and schedules and is NOT decided. This check decides the structural mechanisms that are necessary for it: acquire reserves permits only after its last cancellation point and under the fair mutex held from lock to reservation; limiter state has exactly three writers and permits are consumed only in Permit::drop after refreshing; every OPEN is preceded by a limiter permit in its iteration; handlers run only in tasks spawned after a stream reservation from a queue of R::INFLIGHT streams, one request per stream; every production server/client is created with the rate of its own RPC kind; a request above the burst never returns; and the deadline arithmetic is pinned to its formulas (start + duration_or_max(refresh*need), quotient and remainder of the same nanosecond count).",
          ["tokio Mutex is FIFO-fair as documented", "the ctx clock is monotone"],
          TRUSTED)
